@@ -14,11 +14,11 @@ Open Scope R_scope.
    "exp x overflows iff x > T" a sound coarse model of float32 exp. *)
 Definition FLT_MAX : R := 340282346638528859811704183484516925440.
 Lemma exp_88_lt_FLT_MAX : exp 88 < FLT_MAX.
-Proof. unfold FLT_MAX. interval. Qed.
+Proof. unfold FLT_MAX. interval with (i_prec 80). Qed.
 Lemma FLT_MAX_lt_exp_89 : FLT_MAX < exp 89.
-Proof. unfold FLT_MAX. interval. Qed.
+Proof. unfold FLT_MAX. interval with (i_prec 80). Qed.
 Lemma exp_m88_tiny : exp (- 88) < 1 / 10 ^ 38.
-Proof. interval. Qed.
+Proof. interval with (i_prec 80). Qed.
 
 (* ---- selu backward: every exp argument is <= 0, for all real inputs ---------------------------------------- *)
 Definition any4 : list itv := [itop; itop; itop; itop].
